@@ -53,9 +53,8 @@ type Case struct {
 }
 
 const (
-	windowCs = 162 // polling interval 100 + coalescing 2 + slack 60
-	warmCs   = 30
-	slackCs  = 62 // strobe -> Poll return: coalescing 2 + slack 60
+	windowCs = 202 // polling interval 100 + coalescing 2 + slack 100
+	slackCs  = 102 // strobe -> Poll return: coalescing 2 + slack 100
 )
 
 type tev struct {
@@ -349,6 +348,24 @@ func runCase(c Case) (res result) {
 		return true
 	}
 
+	// the baseline: wait for the polling loop's first compare; edits before it
+	// belong to the baseline and are not notified by design
+	warmCs := -1
+	for i := 0; i < 800 && warmCs < 0; i++ {
+		rec.mu.Lock()
+		for _, e := range rec.evs {
+			if strings.HasPrefix(e.coq, "HPollCmp") {
+				warmCs = e.t + 1
+			}
+		}
+		rec.mu.Unlock()
+		if warmCs < 0 {
+			time.Sleep(10 * time.Millisecond)
+		}
+	}
+	if warmCs < 0 {
+		res.discard = "no-baseline"
+	}
 	for _, o := range c.Ops {
 		if res.discard != "" {
 			break
